@@ -68,6 +68,12 @@ claim("C05",
       "Obligations: the state word changes only along E37 edges; each commit takes effect at once and exactly from its source state; processing a commit-backed event later never moves the word (no replay/undo); T7 never moves a Selected word; after Close the word is NotConnected and stays so whatever commits follow; notifications are deduped, chained, never self-transitions, coalescing is counted; when quiescent the last notification equals State().",
       "Trusted: executor + channel/atomic models (sequentially consistent), z3, rely conditions listed in evidence. One open known finding (stale evSelectAccepted after SelectLost), one fixed (commit after the close latch). Outside: memory model, notifier delivery, run() starved beyond the reconnect backoff.")
 
+claim("C11",
+      "Bounded symbolic model check of recovery: nextBackoffDelay as a floating-point query (0 < result <= T5 for any multiplier on the grid, result >= current for multiplier >= 1); the real connectLoop under virtual time with a transport failing 0..3 dials: "
+      "delays start at min(initial, T5), never decrease, never exceed T5, dialing continues until success, Reconnects +1 exactly per successful counted redial, the reconnecting gauge is 1 inside and 0 after, a Close/re-Open at the fence stops dialing and publishes nothing; "
+      "the NotConnected reaction reconnects only after an involuntary drop; T7 expiry and read errors at any byte funnel into exactly one link-down report.",
+      "Trusted: executor + virtual time, model transport, z3 (FP tactic). Outside: real sockets/listeners, end-to-end re-selection after recovery, multipliers off the grid / T5 > 18 min, SECS-I.")
+
 for _p, _r in {
     "C03": "check not yet registered in this session (work in progress, see DESIGN.md §3)",
     "C04": "check not yet registered in this session (work in progress, see DESIGN.md §3)",
